@@ -25,7 +25,7 @@ EXPLANATION = (
     "Fault kinds also include unknown items in the first / in a single-item dimension's column, a stray row placed first, repeated row labels; dimension columns headed by name and by letter.")
 TECHNIQUE = "static analysis: abstract interpretation of the import path over a fault matrix (faults x flag combinations) with a pandas model; defaults and flag forwarding rules"
 
-ARRAYS_QUICK = [("t", "a"), ("a", "s", "b")]
+ARRAYS_QUICK = [("t", "a"), ("a", "s", "b"), ("n", "a")]
 ARRAYS_THOROUGH = ARRAYS_QUICK + [("a",), ("n", "t"), ("b", "t", "a")]
 
 
